@@ -374,6 +374,36 @@ theorem model_run_follows_a_path (sc : Scenario) (race : Bool) (nHup : Nat) :
 example : ∃ sc, pathRes (.served 0) (runSegs current sc false).res = true := ⟨wFull2, by decide⟩
 example : ∃ sc, (runSegs current sc false).res = .errStartup := ⟨wFail, by decide⟩
 
+/-- **every run of the model is an execution of the regenerated control flow** (at the level of call words): for slices
+    that pass `checkWhole`, `liveness` and `modelPathsPresent`, every scenario and both values of `race`: unless a hook
+    panic leaves `Start`, the run follows a path shape whose word is the word of an enumerated execution of the assembled
+    program (for `served h`, `h` = any number of SIGHUP reloads, in particular the scenario's) — and that execution, like
+    every other, is in the lifecycle language -/
+theorem model_run_is_an_execution (k : Skels) (hc : checkWhole k = true) (hl : liveness k = true)
+    (hp : modelPathsPresent k 0 = true) (sc : Scenario) (race : Bool) (nHup : Nat) :
+    (runSegs current sc race).res = .panic ∨
+    ∃ p n o, pathOfRes nHup (runSegs current sc race).res = some p ∧ o ∈ startOuts k n ∧ word o = modelWord p ∧
+      inStartLang (word o) = true ∧ isRet o.fin = true := by
+  rcases model_run_follows_a_path sc race nHup with h | ⟨p, hp1, _, _⟩
+  · exact Or.inl h
+  · right
+    simp only [modelPathsPresent, Bool.and_eq_true, List.contains_eq_mem, decide_eq_true_eq] at hp
+    have hmem : ∃ n o, o ∈ startOuts k n ∧ word o = modelWord p := by
+      cases p with
+      | startFailed =>
+        obtain ⟨o, ho, hw⟩ := List.mem_map.mp hp.1.1
+        exact ⟨_, o, ho, hw⟩
+      | listenFailed =>
+        obtain ⟨o, ho, hw⟩ := List.mem_map.mp hp.1.2
+        exact ⟨_, o, ho, hw⟩
+      | certFailed => simp [pathOfRes] at hp1; split at hp1 <;> simp at hp1
+      | served h =>
+        obtain ⟨o, ho, hw⟩ := List.mem_map.mp (served_word_present k hl h)
+        exact ⟨_, o, ho, hw⟩
+    obtain ⟨n, o, ho, hw⟩ := hmem
+    obtain ⟨h1, h2⟩ := whole_in_language k hc n o ho
+    exact ⟨p, n, o, hp1, ho, hw, h1, h2⟩
+
 /-! ### OnStop hooks: the model's `stopHooks` is the executor with a recover per hook — and that is what it takes -/
 
 /-- `stopHooks` (what `runSegs` uses) is `executeStopHooks` with each hook under its own recover: every hook runs, whatever
